@@ -30,9 +30,9 @@ Proof. exact Inv_meaning. Qed.
 Print Assumptions C18_invariant_meaning.
 
 (* every modelled operation, used on existing units/streams and within its precondition,
-   preserves the invariant (item/slice assignment and pipes, insert, append, extend, replace, pop,
+   preserves the invariant (item/slice/extended-slice assignment and pipes, insert, append, extend, replace, pop,
    remove, clear (variable size), empty, disconnect_sink/source/disconnect, u1-u2,
-   unit.disconnect(join_ends), unit.insert, take_place_of, replace_with(other / None),
+   unit.disconnect(inlets, outlets, join_ends), unit.insert(stream, inlet, outlet), take_place_of, replace_with(other / None),
    Connection.reconnect, Unit(ins=..., outs=...) in all accepted forms) *)
 Theorem C18_step : forall w o,
   Inv w -> wfb w o = true -> preb w o = true -> Inv (fst (step w o)).
@@ -67,10 +67,14 @@ Definition demo : list op :=
    OSetSlice SIn 2 None None [AObj (S_ 2); ANone]; OSet SIn 2 1%Z (AObj (S_ 1)); OPipeUU 1 2;
    OInsert SOut 2 0%Z (AObj (S_ 3)); OExtend SOut 2 [AObj (S_ 4)]; OPop SOut 2 0%Z; OPop SIn 2 0%Z;
    OReplace SIn 1 (AObj (S_ 0)) (AAt SOut 0 0); ORemove SIn 1 (AAt SIn 1 0); ODisc SOut (AObj (S_ 0));
-   OUnitDisconnect 2 true; OTakePlaceOf 1 2; OReconnect (Some 0) 0%Z (AObj (S_ 2)) 1%Z (Some 1);
-   OUnitInsert 0 (AObj (S_ 2)); OUnitInsert 1 (AObj (S_ 2)); ODiscBoth (AObj (S_ 2)); OClear SOut 2; OEmpty SIn 1;
+   OUnitDisconnect 2 true None None; OUnitDisconnect 1 false (Some [DIdx 0%Z; DArg (AAt SIn 1 1)]) (Some [DIdx 0%Z]); OTakePlaceOf 1 2; OReconnect (Some 0) 0%Z (AObj (S_ 2)) 1%Z (Some 1);
+   OUnitInsert 0 (AObj (S_ 2)) PNone PNone; OUnitInsert 1 (AObj (S_ 2)) PNone PNone; ODiscBoth (AObj (S_ 2)); OClear SOut 2; OEmpty SIn 1;
    ONewUnit 2 2 true false (FList [IReal 0; INone]) (FList [INew; IReal 1; INone]);
-   ONewUnit 1 1 true true (FOne (IReal 0)) FEmpty; OReplaceWith 3 None].
+   ONewUnit 1 1 true true (FOne (IReal 0)) FEmpty; OReplaceWith 3 None;
+   ONewUnit 1 2 true true FNone FNone; OSet SOut 0 0%Z (AObj (S_ 3)); OSet SIn 1 0%Z (AObj (S_ 3));
+   OUnitInsert 5 (AObj (S_ 3)) (PIndex 1%Z) (PIndex 0%Z);
+   ONewUnit 3 1 false true FNone FNone; OSetSliceStep SIn 6 None None 2%Z [AObj (S_ 4); ANone];
+   OSetSliceStep SIn 6 None None (-1)%Z [AObj (S_ 0); AObj (S_ 1); AObj (S_ 2)]].
 Example C18_nonvacuous : within_pre (empty_world 5) (setup3 ++ demo) /\ Inv (run U3 demo).
 Proof. assert (H : within_pre (empty_world 5) (setup3 ++ demo)) by within_tac. split; [exact H | now apply Inv_after]. Qed.
 
@@ -117,6 +121,12 @@ Example C18_slice_disjoint_precondition_needed :
   needed [OSet SIn 1 0%Z (AObj (S_ 0))] (OSetSlice SIn 1 (Some 1%Z) None [AObj (S_ 0)]).
 Proof. needed_tac. Qed.
 
+(* an extended slice with fewer streams than positions: list.__setitem__ raises ValueError after the
+   selected streams were undocked, so they stay listed without a sink *)
+Example C18_extended_slice_length_precondition_needed :
+  needed [OSet SIn 1 0%Z (AObj (S_ 0))] (OSetSliceStep SIn 1 None None (-1)%Z [AObj (S_ 1)]).
+Proof. needed_tac. Qed.
+
 (* reported separately (not among the property's operations): clear() on a fixed-size list
    re-creates the placeholders without undocking the streams it drops *)
 Example C18_clear_fixed_breaks_invariant :
@@ -125,5 +135,5 @@ Proof. needed_tac. Qed.
 (* reported separately: unit.insert(stream) on a unit whose outlets have variable size appends the
    stream to its outlets and then undocks it through source.outs.replace: outside "single default ports" *)
 Example C18_unit_insert_variable_outlets_breaks_invariant :
-  needed [OSet SOut 0 0%Z (AObj (S_ 0)); OSet SIn 1 0%Z (AObj (S_ 0))] (OUnitInsert 2 (AObj (S_ 0))).
+  needed [OSet SOut 0 0%Z (AObj (S_ 0)); OSet SIn 1 0%Z (AObj (S_ 0))] (OUnitInsert 2 (AObj (S_ 0)) PNone PNone).
 Proof. needed_tac. Qed.
